@@ -144,7 +144,13 @@ func c05M1(l *core.Ledger, r *rt, eps []*entryPoint) {
 			touch = append(touch, fnKey(f))
 			for _, ref := range *fa.Referrers() {
 				c, isCall := ref.(*ssa.Call)
-				if !isCall || !calleeIs(&c.Call, "sync/atomic.AddUint64") {
+				typedAdd := false
+				if isCall {
+					if sc := c.Call.StaticCallee(); sc != nil && sc.Name() == "Add" && sc.Signature.Recv() != nil && (isNamed(sc.Signature.Recv().Type(), "sync/atomic", "Uint64") || isNamed(sc.Signature.Recv().Type(), "sync/atomic", "Int64")) {
+						typedAdd = true // the counter as a typed atomic: nextMsgID.Add(1)
+					}
+				}
+				if !isCall || (!typedAdd && !calleeIs(&c.Call, "sync/atomic.AddUint64")) || len(c.Call.Args) < 2 {
 					okAtomic = false
 					continue
 				}
